@@ -120,7 +120,7 @@ void resync_case(Ctx &c) { case_impl(c, true); }
 Registrar reg(Prop{
     "C13",
     "Cases: node id 1..127; RPDO table: each of 4 channels absent / asynchronous (254/255) / synchronous (type 0..240), valid or invalid COB-ID, distinct or colliding identifiers; mappings of 0..8 fields drawn from two 8-bit, one 16-bit, one 32-bit and one 24-bit-of-32 object and the dummy entries 0002h..0007h with their natural widths, total <= 8 bytes; "
-    "histories of up to 120 ops: RPDO frames with the mapped length or longer and random payloads, near-miss identifiers, SYNCs (DLC 0/1), NMT start/stop/pre-operational and repeated NMT start while OPERATIONAL, local writes, ticks. "
+    "histories of up to 120 ops: RPDO frames with the mapped length or longer and random payloads, near-miss identifiers, SYNCs (DLC 0/1), NMT start/stop/pre-operational and repeated NMT start while OPERATIONAL, local writes, ticks; mode sync-id-rewritten adds SDO writes that move the SYNC identifier 1005h among {80h, 90h, 100h} at run time and frames on the former identifiers (which are then any other identifier). "
     "Oracle: model dictionary compared with a full storage snapshot after every step (asynchronous: consecutive little-endian fields written at once, dummies skipped by width; synchronous: buffered, applied at the next SYNC exactly once; nothing outside OPERATIONAL or for other identifiers; everything else byte-identical). "
     "Non-trivial: the case has a mapping with >= 2 fields or a dummy, or a synchronous RPDO saw >= 2 SYNCs. Distinct = distinct decoded choice sequence.",
     {Mode{"random", one_case, false, 1000000, 20000000, 0, 0, 300, 500},
